@@ -36,6 +36,10 @@ type Config struct {
 	Comments bool
 	// AnyIndexMaps allows map index types other than string.
 	NonStringMapKeys bool
+	// IntersectionAnyBranch: one intersection branch in four is neither a
+	// reference nor an inline struct (a union, `T | null`, a list, a map, an
+	// enum...: OpenAPI `allOf: [{$ref: ...}, {oneOf: [...]}]`)
+	IntersectionAnyBranch bool
 	// MixedDisjunctions allows unions mixing refs, scalars and anonymous structs.
 	MixedDisjunctions bool
 	// ExtraNames are added to the object-name pool (e.g. "spec", "metadata").
@@ -346,6 +350,31 @@ func (g *genCtx) objectType(t *rapid.T, info objInfo) TypeSpec {
 		n := rapid.IntRange(1, 3).Draw(t, "nbranches")
 		ts := TypeSpec{Kind: "intersection"}
 		for i := 0; i < n; i++ {
+			if g.cfg.IntersectionAnyBranch && rapid.IntRange(0, 3).Draw(t, "interany") == 0 {
+				// simple shapes only: what matters is that a branch is neither a
+				// reference nor a struct
+				str := TypeSpec{Kind: "scalar", Scalar: "string"}
+				num := TypeSpec{Kind: "scalar", Scalar: "int64"}
+				null := TypeSpec{Kind: "scalar", Scalar: "null"}
+				switch rapid.IntRange(0, 4).Draw(t, "interanykind") {
+				case 0:
+					ts.Branches = append(ts.Branches, TypeSpec{Kind: "disjunction", Branches: []TypeSpec{str, num}})
+				case 1:
+					ts.Branches = append(ts.Branches, TypeSpec{Kind: "disjunction", Branches: []TypeSpec{str, null}})
+				case 2:
+					structs := g.objsOfClass(clsStruct, clsVariantStruct)
+					if len(structs) >= 2 {
+						ts.Branches = append(ts.Branches, TypeSpec{Kind: "disjunction", Branches: []TypeSpec{g.refTo(t, structs), g.refTo(t, structs)}})
+					} else {
+						ts.Branches = append(ts.Branches, TypeSpec{Kind: "disjunction", Branches: []TypeSpec{num, str}})
+					}
+				case 3:
+					ts.Branches = append(ts.Branches, TypeSpec{Kind: "array", Elem: &str})
+				default:
+					ts.Branches = append(ts.Branches, TypeSpec{Kind: "map", Index: &str, Elem: &num})
+				}
+				continue
+			}
 			if rapid.Bool().Draw(t, "interref") {
 				ts.Branches = append(ts.Branches, g.refTo(t, g.objsOfClass(clsStruct, clsVariantStruct)))
 			} else {
